@@ -12,6 +12,7 @@ REQUIRED_THEOREMS = [
     'OpusProps.C01SilkApi.initDecoder_inv', 'OpusProps.C01SilkApi.setFs_establishes_cfg',
     'OpusProps.C01SilkApi.msToLR_outputs_int16', 'OpusProps.C01SilkApi.cfgChan_configures',
     'OpusProps.C01SilkApi.nSamplesOut_is_duration', 'OpusProps.C01SilkApi.tmp_extents_in_bounds',
+    'OpusProps.C01SilkApi.silkDecode_contract', 'OpusProps.C01SilkApi.silkDecode_history',
 ]
 RULE = ('random call histories through the real opus_decode / opus_decode_float at all five API rates x {1,2} output channels on '
         'packets of a real encoder whose bandwidth (NB/MB/WB = 8/12/16 kHz internal, SWB/FB hybrid), channel count, frame duration '
@@ -20,6 +21,9 @@ RULE = ('random call histories through the real opus_decode / opus_decode_float 
         'SILK TOC; every silk_Decode / silk_InitDecoder / silk_ResetDecoder call the real decoder makes is one case '
         '(pre-state, arguments, oracle answers) -> (return value, nSamplesOut, prevPitchLag, post-state, inner call sequence with '
         'arguments and buffer offsets, hash of resampler inputs = MS->LR output, hash of samplesOut, highest slot written); '
+        'every silk_stereo_MS_to_LR call inside those histories plus generated boundary inputs (saturating sums, predictors at the '
+        'dequantiser extremes, constant and random int16 frames, 10/20 ms at 8/12/16 kHz so that the 8 ms interpolation boundary '
+        'falls inside the frame) is compared SAMPLE BY SAMPLE (both output buffers incl. history slots, and the stereo state); '
         'a case is distinct by (lostFlag, internal channels, API channels)')
 NOT_COVERED = [
     'the interior of silk_decode_frame (C03 / other C01 extension slices) and of silk_resampler (slice SilkResamp): oracles with '
@@ -37,13 +41,14 @@ ASSUMPTIONS = [
 ]
 TRUSTED = ['OpusModel/SilkApi.lean is a hand transcription of silk/dec_API.c:89-431, silk/decoder_set_fs.c:35-107, '
            'silk/stereo_MS_to_LR.c:35-85, silk/init_decoder.c:43-83; supported by the silkapi tie on reachable states']
-UNPROVED = ['whole-call composition: Inv(api) is preserved by silkDecode for every call with ArgsOk (hence for every history), '
-            'silkDecode returns 0 / err = none under OrcOk, every recorded access of Run.ac is in bounds and samplesOut is written '
-            'exactly on [0, nSamplesOut*nChannelsAPI) — the invariant Inv / argument set ArgsOk / contract OrcOk are defined '
-            '(OpusModel/SilkApiSpec.lean) and the per-phase facts are proved (per-channel configuration incl. unreachable error '
-            'exits, nSamplesOut, samplesOut1_tmp extents, MS->LR), but prep / readFlags / frames / output are not yet chained into one '
-            'theorem about silkDecode; the driver evaluates Acc.InBounds of every recorded access on every explored call instead (BOUNDS)',
-            'index bounds of VAD_flags / LBRR_flags / silk_LBRR_flags_iCDF_ptr / mult_tab accesses (recorded in Run.ac, checked at run time only)']
+UNPROVED = ['`every access recorded in Run.ac is in bounds` as ONE theorem about silkDecode: proved are the samplesOut1_tmp extents '
+            '(tmp_extents_in_bounds, per configured channel) and that samplesOut has exactly nSamplesOut*nChannelsAPI elements '
+            '(silkDecode_contract: Run.out.length); the strided samplesOut write records, the samplesOut2_tmp extent and the index '
+            'bounds of VAD_flags / LBRR_flags / silk_LBRR_flags_iCDF_ptr / mult_tab (all recorded in Run.ac) are evaluated by the '
+            'driver on every explored call (answer BOUNDS) but not proved for all states',
+            '`samplesOut written exactly on [0, nSamplesOut*nChannelsAPI)` is proved as the length of the model output list; that no '
+            'slot keeps the sentinel (every slot is written) is checked by the tie (hash over a sentinel-filled buffer), not proved',
+            'DecSkel OracleOk.silk third field (ec_tell >= 1 after a non-lost call) is a range-decoder fact, not discharged here']
 LEVEL_TEXT = ('proof over an executable model of the SILK decoder control layer with contract-bound oracles for silk_decode_frame, '
               'silk_resampler and the symbol reads: silk_decoder_set_fs establishes the rate configuration for every legal '
               '(fs_kHz, API rate, nb_subfr) from a fresh or previously configured channel; silk_InitDecoder / silk_ResetDecoder '
@@ -53,8 +58,11 @@ LEVEL_TEXT = ('proof over an executable model of the SILK decoder control layer 
               'configured channel nSamplesOut = nb_subfr*5 ms*Fs_API in (0,960] without wrap or division by zero and every '
               'samplesOut1_tmp extent (frame output +2, resampler input +1, history copies, MS->LR) is inside the allocated '
               'nChannelsInternal*(frame_length+2) elements; silk_stereo_MS_to_LR keeps buffer lengths and produces int16 samples for '
-              'every input. The composition of these phase lemmas into one theorem about silk_Decode over all histories is not done '
-              '(see unproved)')
+              'every input. WHOLE CALL (silkDecode_contract): for every state satisfying the invariant, every argument tuple the Opus '
+              'layer passes (incl. the packet protocol) and oracles within contract, silk_Decode reaches no assertion, takes no error '
+              'exit, returns 0, sets nSamplesOut = nb_subfr*5 ms*Fs_API (nb_subfr in {2,4}), produces exactly nSamplesOut*nChannelsAPI '
+              'output samples and preserves the invariant — i.e. C01\'s oracle contract OracleOk.silk (fields 1, 2) and the EvOk extent '
+              'as a theorem; lifted by list induction to every history of decode / init / reset calls (silkDecode_history)')
 LEVEL_NOTE = ('trusted: Lean kernel; oracle contracts (monitored by the harness wrappers); the correspondence harness (#include of '
               'silk/dec_API.c with the callees renamed to recording wrappers, driven through the real opus_decode*) and line protocol; '
               'C int modelled as unbounded Int with explicit wrap32 / sext16 / sat16 in the MS->LR arithmetic')
@@ -80,7 +88,8 @@ def _sizes(ctx):
 def ties(ctx):
     h = harness(ctx, 'c01_silkapi', 'san')
     n, _ = _sizes(ctx)
-    return [common.run_tie('silkapi-rand', [h, 'rand', str(ctx.seed), str(n)])]
+    return [common.run_tie('silkapi-rand', [h, 'rand', str(ctx.seed), str(n)]),
+            common.run_tie('silkapi-mstolr', [h, 'ms', str(ctx.seed), str(600 if ctx.quick else 12000)])]
 
 
 def classify(ctx, tie, mm):
